@@ -413,3 +413,144 @@ func specBEByte(w int, v int, j int) int {
 //@     invariant forall k int :: 0 <= k && k < h-1 ==> result[1+k] == specLenByte(n*w, h-1, k)
 //@     invariant forall p int :: 0 <= p && p < (rangeindex+1)*w ==> result[h+p] == specBEByte(w, node.values[p/w], p%w)
 //@     invariant forall j int :: 0 <= j && j < w-1-i ==> result[h+(rangeindex+1)*w+j] == specBEByte(w, value, j)
+
+// specBEByteU: byte j (0 = most significant) of the w-byte big-endian encoding of the unsigned value v.
+func specBEByteU(w int, v uint64, j int) int {
+	return int((v >> ((w - 1 - j) * 8)) & 255)
+}
+
+func specIsFloatW(w int) bool { return w == 4 || w == 8 }
+
+func specFloatType(w int) string {
+	if w == 4 {
+		return "f4"
+	}
+	return "f8"
+}
+
+func specBoolByte(b bool) int {
+	if b {
+		return 1
+	}
+	return 0
+}
+
+//@ type UintNode invariant specIsIntW(self.byteSize) && len(self.values)*self.byteSize <= 16777215
+//@   invariant forall i int :: 0 <= i && i < len(self.values) ==> specInRangeU(self.byteSize, self.values[i])
+
+//@ func (*UintNode).ToBytes
+//@   property C02 C16 C01 C13
+//@   split node.byteSize in 1, 2, 4, 8
+//@   let w = node.byteSize
+//@   let n = len(node.values)
+//@   let h = 1 + specNLen(n*w)
+//@   ensures fresh(result)
+//@   ensures len(node.variables) != 0 ==> len(result) == 0
+//@   ensures len(node.variables) == 0 ==> len(result) == h + n*w
+//@   ensures len(node.variables) == 0 ==> result[0] == specFormatCode(specUintType(w))*4 + specNLen(n*w)
+//@   ensures len(node.variables) == 0 ==> forall k int :: 0 <= k && k < h-1 ==> result[1+k] == specLenByte(n*w, h-1, k)
+//@   ensures len(node.variables) == 0 ==> forall p int :: 0 <= p && p < n*w ==> result[h+p] == specBEByteU(w, node.values[p/w], p%w)
+//@   loop 1
+//@     invariant 0 <= rangeindex+1 && rangeindex+1 <= n
+//@     invariant fresh(result) && len(result) == h + (rangeindex+1)*w
+//@     invariant result[0] == specFormatCode(specUintType(w))*4 + specNLen(n*w)
+//@     invariant forall k int :: 0 <= k && k < h-1 ==> result[1+k] == specLenByte(n*w, h-1, k)
+//@     invariant forall p int :: 0 <= p && p < (rangeindex+1)*w ==> result[h+p] == specBEByteU(w, node.values[p/w], p%w)
+//@   loop 2
+//@     invariant -1 <= i && i < w && 0 <= rangeindex+1 && rangeindex+1 < n
+//@     invariant fresh(result) && len(result) == h + (rangeindex+1)*w + (w-1-i)
+//@     invariant result[0] == specFormatCode(specUintType(w))*4 + specNLen(n*w)
+//@     invariant forall k int :: 0 <= k && k < h-1 ==> result[1+k] == specLenByte(n*w, h-1, k)
+//@     invariant forall p int :: 0 <= p && p < (rangeindex+1)*w ==> result[h+p] == specBEByteU(w, node.values[p/w], p%w)
+//@     invariant forall j int :: 0 <= j && j < w-1-i ==> result[h+(rangeindex+1)*w+j] == specBEByteU(w, value, j)
+
+//@ type BinaryNode invariant len(self.values) <= 16777215
+//@   invariant forall i int :: 0 <= i && i < len(self.values) ==> 0 <= self.values[i] && self.values[i] < 256
+
+//@ func (*BinaryNode).ToBytes
+//@   property C02 C16 C01 C13
+//@   let n = len(node.values)
+//@   let h = 1 + specNLen(n)
+//@   ensures fresh(result)
+//@   ensures len(node.variables) != 0 ==> len(result) == 0
+//@   ensures len(node.variables) == 0 ==> len(result) == h + n
+//@   ensures len(node.variables) == 0 ==> result[0] == specFormatCode("binary")*4 + specNLen(n)
+//@   ensures len(node.variables) == 0 ==> forall k int :: 0 <= k && k < h-1 ==> result[1+k] == specLenByte(n, h-1, k)
+//@   ensures len(node.variables) == 0 ==> forall p int :: 0 <= p && p < n ==> result[h+p] == node.values[p]
+//@   loop 1
+//@     invariant 0 <= rangeindex+1 && rangeindex+1 <= n
+//@     invariant fresh(result) && len(result) == h + (rangeindex+1)
+//@     invariant result[0] == specFormatCode("binary")*4 + specNLen(n)
+//@     invariant forall k int :: 0 <= k && k < h-1 ==> result[1+k] == specLenByte(n, h-1, k)
+//@     invariant forall p int :: 0 <= p && p <= rangeindex ==> result[h+p] == node.values[p]
+
+//@ type BooleanNode invariant len(self.values) <= 16777215
+
+//@ func (*BooleanNode).ToBytes
+//@   property C02 C16 C01 C13
+//@   let n = len(node.values)
+//@   let h = 1 + specNLen(n)
+//@   ensures fresh(result)
+//@   ensures len(node.variables) != 0 ==> len(result) == 0
+//@   ensures len(node.variables) == 0 ==> len(result) == h + n
+//@   ensures len(node.variables) == 0 ==> result[0] == specFormatCode("boolean")*4 + specNLen(n)
+//@   ensures len(node.variables) == 0 ==> forall k int :: 0 <= k && k < h-1 ==> result[1+k] == specLenByte(n, h-1, k)
+//@   ensures len(node.variables) == 0 ==> forall p int :: 0 <= p && p < n ==> result[h+p] == specBoolByte(node.values[p])
+//@   loop 1
+//@     invariant 0 <= rangeindex+1 && rangeindex+1 <= n
+//@     invariant fresh(result) && len(result) == h + (rangeindex+1)
+//@     invariant result[0] == specFormatCode("boolean")*4 + specNLen(n)
+//@     invariant forall k int :: 0 <= k && k < h-1 ==> result[1+k] == specLenByte(n, h-1, k)
+//@     invariant forall p int :: 0 <= p && p <= rangeindex ==> result[h+p] == specBoolByte(node.values[p])
+
+//@ type ASCIINode invariant len(self.value) <= 16777215
+//@   invariant forall i int :: 0 <= i && i < len(self.value) ==> self.value[i] < 128
+//@   invariant self.isValue ==> self.variable.name == "" && self.variable.minLength == 0 && self.variable.maxLength == 0
+//@   invariant !self.isValue ==> self.value == "" && re_match(specVarNamePattern(), self.variable.name)
+//@   invariant !self.isValue ==> self.variable.minLength >= 0 && self.variable.maxLength >= -1
+//@   invariant !self.isValue && self.variable.maxLength != -1 ==> self.variable.minLength <= self.variable.maxLength
+
+//@ func (*ASCIINode).ToBytes
+//@   property C02 C16 C01 C13
+//@   let n = len(node.value)
+//@   let h = 1 + specNLen(n)
+//@   ensures fresh(result)
+//@   ensures !node.isValue ==> len(result) == 0
+//@   ensures node.isValue ==> len(result) == h + n
+//@   ensures node.isValue ==> result[0] == specFormatCode("ascii")*4 + specNLen(n)
+//@   ensures node.isValue ==> forall k int :: 0 <= k && k < h-1 ==> result[1+k] == specLenByte(n, h-1, k)
+//@   ensures node.isValue ==> forall p int :: 0 <= p && p < n ==> result[h+p] == node.value[p]
+//@   loop 1
+//@     invariant 0 <= iterpos && iterpos <= n
+//@     invariant fresh(result) && len(result) == h + iterpos
+//@     invariant result[0] == specFormatCode("ascii")*4 + specNLen(n)
+//@     invariant forall k int :: 0 <= k && k < h-1 ==> result[1+k] == specLenByte(n, h-1, k)
+//@     invariant forall p int :: 0 <= p && p < iterpos ==> result[h+p] == node.value[p]
+
+//@ type FloatNode invariant specIsFloatW(self.byteSize) && len(self.values)*self.byteSize <= 16777215
+
+//@ func (*FloatNode).ToBytes
+//@   property C02 C16 C01 C13
+//@   split node.byteSize in 4, 8
+//@   let w = node.byteSize
+//@   let n = len(node.values)
+//@   let h = 1 + specNLen(n*w)
+//@   ensures fresh(result)
+//@   ensures len(node.variables) != 0 ==> len(result) == 0
+//@   ensures len(node.variables) == 0 ==> len(result) == h + n*w
+//@   ensures len(node.variables) == 0 ==> result[0] == specFormatCode(specFloatType(w))*4 + specNLen(n*w)
+//@   ensures len(node.variables) == 0 ==> forall k int :: 0 <= k && k < h-1 ==> result[1+k] == specLenByte(n*w, h-1, k)
+//@   ensures len(node.variables) == 0 && w == 4 ==> forall p int :: 0 <= p && p < n*4 ==> result[h+p] == specBEByteU(4, f32bits(float32(node.values[p/4])), p%4)
+//@   ensures len(node.variables) == 0 && w == 8 ==> forall p int :: 0 <= p && p < n*8 ==> result[h+p] == specBEByteU(8, f64bits(node.values[p/8]), p%8)
+//@   loop 1
+//@     invariant w == 4 && 0 <= rangeindex+1 && rangeindex+1 <= n
+//@     invariant fresh(result) && len(result) == h + (rangeindex+1)*4
+//@     invariant result[0] == specFormatCode(specFloatType(w))*4 + specNLen(n*w)
+//@     invariant forall k int :: 0 <= k && k < h-1 ==> result[1+k] == specLenByte(n*w, h-1, k)
+//@     invariant forall p int :: 0 <= p && p < (rangeindex+1)*4 ==> result[h+p] == specBEByteU(4, f32bits(float32(node.values[p/4])), p%4)
+//@   loop 2
+//@     invariant w == 8 && 0 <= rangeindex+1 && rangeindex+1 <= n
+//@     invariant fresh(result) && len(result) == h + (rangeindex+1)*8
+//@     invariant result[0] == specFormatCode(specFloatType(w))*4 + specNLen(n*w)
+//@     invariant forall k int :: 0 <= k && k < h-1 ==> result[1+k] == specLenByte(n*w, h-1, k)
+//@     invariant forall p int :: 0 <= p && p < (rangeindex+1)*8 ==> result[h+p] == specBEByteU(8, f64bits(node.values[p/8]), p%8)
